@@ -48,7 +48,8 @@ Definition ack_eqb (a b : ack) : bool := (a_id a =? a_id b) && (a_dst a =? a_dst
 Definition tobs_eqb (a b : tick_obs) : bool :=
   Bool.eqb (to_progress a) (to_progress b) && list_eqb ack_eqb (to_acks a) (to_acks b) &&
   list_eqb mreq_eqb (to_in a) (to_in b) && list_eqb mreq_eqb (to_out a) (to_out b) &&
-  Bool.eqb (to_active a) (to_active b) && Nat.eqb (to_ntop a) (to_ntop b).
+  Bool.eqb (to_active a) (to_active b) && Nat.eqb (to_ntop a) (to_ntop b) &&
+  opt_eqb (fun x y => data_eqb (fst x) (fst y) && data_eqb (snd x) (snd y)) (to_snap a) (to_snap b).
 
 Definition init_env (c : run_case) : env :=
   mk_env (dm_init (rc_bufsize c) (rc_gin c) (rc_gout c) (rc_tcap c) (rc_icap c) (rc_ocap c))
@@ -97,6 +98,19 @@ Fixpoint acks_in_order (vs : list move) (acks : list ack) : bool :=
       end
   end.
 
+(** the memories at the tick of the k-th acknowledgment are exactly the result of the first k moves *)
+Fixpoint snaps_ok (vs : list move) (ms : list N * list N) (snaps : list (list N * list N)) : bool :=
+  match snaps with
+  | [] => true
+  | s :: snaps' =>
+      match vs with
+      | v :: vs' =>
+          let ms' := apply_move ms v in
+          data_eqb (fst ms') (fst s) && data_eqb (snd ms') (snd s) && snaps_ok vs' ms' snaps'
+      | [] => false
+      end
+  end.
+
 Definition holds_run (c : run_case) : bool :=
   let vs := delivered (rc_script c) (ro_ticks c) in
   let all_scripted := flat_map i_top (rc_script c) in
@@ -104,6 +118,8 @@ Definition holds_run (c : run_case) : bool :=
     (ro_outcome c =? 0) &&
     let acks := flat_map to_acks (ro_ticks c) in
     acks_in_order vs acks &&
+    snaps_ok vs (rc_mem_in c, rc_mem_out c)
+             (flat_map (fun ob => match to_snap ob with Some s => [s] | None => [] end) (ro_ticks c)) &&
     (if rc_complete c then
        (* every accepted move acknowledged exactly once, and the memories hold exactly the
           result of performing the moves one after the other in arrival order *)
